@@ -15,6 +15,7 @@ open IrVerif.LinkedSet
 #print axioms C11_tombstone_order
 #print axioms C11_next_rest
 #print axioms C11_untouched_step
+#print axioms C11_resume_current
 #print axioms C11_untouched_exactly_once_in_order
 #print axioms C11_spec_rest_remove
 #print axioms C11_spec_rest_insert
@@ -23,4 +24,5 @@ open IrVerif.LinkedSet
 #print axioms C11_rec_only_members
 #print axioms C11_rec_terminates
 #print axioms C11_rec_preorder
+#print axioms C11_rec_history
 #print axioms C11_rec_refine_step
